@@ -7,6 +7,10 @@ props = [json.loads(l)["id"] for l in open(os.path.join(HERE, "properties.jsonl"
 
 # id -> (technique, level text, level note, design section)
 claimed = {
+ "C10": ("Lean 4 theorems over the Conv dispatch model; go/ast translator regenerates the per-source-kind clause tables of toInt64/toUInt64/toDecimal64, the narrowing wrappers and range-check helpers; full boundary-matrix correspondence against val.Conv",
+         "Theorems (all 8 integer targets, all Go integer kinds, floats as exact dyadics, decimal strings, every value): a successful conversion returns exactly the denoted number inside the target range; out-of-range, negative-into-unsigned and fractional sources are errors; in-range integer sources succeed; list forms are element-wise all-or-nothing; integer->decimal64 only when float64 holds the number exactly. Tie: clause tables regenerated from val/conv.go each run and closed by `decide`; the complete boundary matrix (targets × source kinds × boundary values) is diffed against the model in the quick tier.",
+         "Trusted: Lean kernel, extractor (regex on gofmt-normalised clauses; unknown = opaque), harness; strconv.Parse*, math.Trunc, float64(int64) rounding (assumed contracts exercised by the correspondence). Partial: enum/bits/identityref/union front end (node.NewValue) is checked under C05; float64->string rounding is a recorded known finding.",
+         "DESIGN.md §8 C10"),
  "C17": ("Lean 4 theorems over the Compare/lookup model; go/ast translator regenerates the Compare-shape table the theorems quantify over; differential correspondence against val.Compare/Equal/CompareVals and Find on slice-backed lists",
          "Theorems (all operand widths, all operands, all key lists): every Compare shape found in val/types.go has the sign of the mathematical difference; equality is an equivalence, order a strict total order; CompareVals is lexicographic; sort.Search+EqualVals and the linear scan return exactly the entry with the requested key. Tie: table regenerated from source on every run and closed by `decide`; 8-bit types compared exhaustively with the model, wider ones on boundary squares.",
          "Trusted: Lean kernel, extractor (regex classification of gofmt-normalised method bodies; unknown shape = opaque = obligation fails), harness; sort.Sort contract, IEEE-754 for Decimal64, enum ids within int32.",
